@@ -118,6 +118,12 @@ func applyFaults(bar *colarspb.BatchArrowRecords, faults []Fault, retired []stri
 			mainTouched = true
 		}
 	}
+	unmain := func(i int) {
+		// payload i stops being a main record (relabelled to another type, or
+		// emptied): one intact copy fewer; when none is left the batch has no
+		// main record any more (mainCopies == 0 below)
+		roles[i] = other
+	}
 	for _, f := range faults {
 		n := len(b.ArrowPayloads)
 		if f.I < 0 || f.I >= n {
@@ -130,9 +136,10 @@ func applyFaults(bar *colarspb.BatchArrowRecords, faults []Fault, retired []stri
 				return nil, false, 0, false
 			}
 			pl.Type = colarspb.ArrowPayloadType(f.Type)
-			damage(f.I)
 			if colarspb.ArrowPayloadType(f.Type) == mainType {
 				mainTouched = true // a second "main" record that is none: the batch is ambiguous
+			} else {
+				unmain(f.I)
 			}
 		case "drop":
 			if roles[f.I] == mainRec {
@@ -179,7 +186,7 @@ func applyFaults(bar *colarspb.BatchArrowRecords, faults []Fault, retired []stri
 			roles[f.I], roles[f.J] = roles[f.J], roles[f.I]
 		case "empty":
 			pl.Record = nil
-			damage(f.I)
+			unmain(f.I)
 		case "unknown_id":
 			pl.SchemaId = fmt.Sprintf("unknown-%d-%s", f.I, pl.SchemaId)
 			damage(f.I)
